@@ -91,7 +91,11 @@ func c07Handler(r *world.Rng, nmi bool) (ins []string, pushes int) {
 		e(0xed, 0x45)
 	} else {
 		e(0xfb)
-		e(0xed, 0x4d)
+		if r.Chance(1, 3) {
+			e(0xed, 0x45) // "returns with EI; RETI (or RETN)"
+		} else {
+			e(0xed, 0x4d)
+		}
 	}
 	return ins, 2 + len(used)
 }
